@@ -30,6 +30,11 @@ CONSTANTS Scenarios,   \* set of histories (non-empty sequences of lifecycle con
                        \*       raises TypeError twice, the update is poisoned, nobody is told)
           MaxResets,   \* number of ResetRelativeTime messages race control may send between EngineStarted and StopEngine
           Faults,      \* TRUE: the environment may inject one fault (start failure on a host, remote daemon leaving)
+          StaleAcks,   \* FALSE: after a failed start the environment asks the same MechanicActor to start again only once
+                       \*        nothing of the failed attempt can reach it any more (what the checks assume);
+                       \* TRUE:  the next StartEngine may come right after the failure: NodesStarted of the failed attempt that
+                       \*        are still under way are then counted for the new attempt (the code as written has no way to
+                       \*        tell them apart) - pinned variant, violates StartedOnlyWhenAll
           MaxProcs     \* number of started node processes the environment may put into a condition other than alive before
                        \* they are stopped (already gone, dying while terminated, ignoring SIGTERM)
 
@@ -114,7 +119,7 @@ InitFor(s, up) ==
     /\ na = [h \in Hosts(s) |-> InitNa]
     /\ nd = [n \in NodeIds(s) |-> InitNd]
     /\ ho = [h \in Hosts(s) |-> 0]
-    /\ env = [up |-> up, left |-> {}, fault |-> "none", stopSent |-> FALSE, resets |-> 0, torn |-> FALSE, procs |-> 0, cyc |-> 1]
+    /\ env = [up |-> up, left |-> {}, fault |-> "none", stopSent |-> FALSE, resets |-> 0, torn |-> FALSE, procs |-> 0, cyc |-> 1, stale |-> 0]
     /\ act = A("Init", 0, "")
 
 Init == \E hist \in Scenarios : \E up \in SUBSET RemoteTargets(hist[1]) : InitFor(hist[1], up) /\ plan = Tail(hist)
@@ -443,20 +448,51 @@ Drained == /\ rc2m = <<>> /\ m2d = <<>> /\ d2m = <<>> /\ sys2d = <<>> /\ mtimers
 
 (* the same MechanicActor is asked to start the next engine: a new StartEngine with the next configuration; whatever  *)
 (* M keeps in its fields is carried over, a new Dispatcher will be created, the observations start afresh             *)
+(* After a FAILED START (BenchmarkFailure before EngineStarted) the MechanicActor stays in status "starting" with the  *)
+(* children and confirmations collected so far; a new StartEngine is accepted in any status.  The environment sends   *)
+(* one (for a Rally-provisioned cluster) only when nothing of the failed attempt can reach M any more: no message in  *)
+(* flight, no wake-up pending, its Dispatcher no longer subscribed.  The failed attempt's Dispatcher and node actors    *)
+(* (possibly with running nodes) live on, forgotten by M, until M exits; the model drops them here.                    *)
+FailedStartDrained == /\ rc2m = <<>> /\ m2d = <<>> /\ d2m = <<>> /\ sys2d = <<>> /\ mtimers = 0
+                      /\ \A h \in Hosts(scn) : d2n[h] = <<>> /\ n2m[h] = <<>> /\ m2n[h] = <<>> /\ n2d[h] = <<>>
+                      /\ ~(DAlive /\ disp.listening)
+MayRestart == /\ plan # <<>> /\ ~env.torn /\ mech.alive
+              /\ \/ Stopped /\ ~Failed /\ Drained
+                 \/ Failed /\ ~Started /\ ~Head(plan).ext /\ (StaleAcks \/ FailedStartDrained)
+(* confirmations of the current attempt that are still under way (sent, or to be sent by a host that has not started yet) *)
+UnderWay == Cardinality({h \in Hosts(scn) : \/ \E i \in 1..Len(n2m[h]) : n2m[h][i].k = "NodesStarted"
+                                            \/ NAlive(h) /\ \E i \in 1..Len(d2n[h]) : d2n[h][i].k = "StartNodes"})
+
 RcRestart ==
-    /\ plan # <<>> /\ Stopped /\ ~Failed /\ ~env.torn /\ mech.alive /\ Drained
+    /\ MayRestart
     /\ LET s == Head(plan) IN
          /\ scn' = s /\ plan' = Tail(plan)
          /\ rc2m' = <<Msg("StartEngine")>> /\ m2d' = <<>> /\ d2m' = <<>> /\ sys2d' = <<>>
          /\ d2n' = NoChan(s) /\ n2m' = NoChan(s) /\ m2n' = NoChan(s) /\ n2d' = NoChan(s)
          /\ rcbox' = <<>> /\ mtimers' = 0
-         /\ mech' = mech
+         \* M keeps its fields; children it still holds are actors of the finished / failed attempt (-1), no hosts of the new one
+         /\ mech' = [mech EXCEPT !.children = [i \in 1..Len(@) |-> IF @[i] = 0 THEN 0 ELSE -1]]
          /\ disp' = InitDisp
          /\ na' = [h \in Hosts(s) |-> InitNa]
          /\ nd' = [n \in NodeIds(s) |-> InitNd]
          /\ ho' = [h \in Hosts(s) |-> 0]
-         /\ env' = [env EXCEPT !.left = {}, !.fault = "none", !.stopSent = FALSE, !.resets = 0, !.procs = 0, !.cyc = @ + 1]
+         /\ env' = [env EXCEPT !.left = {}, !.fault = "none", !.stopSent = FALSE, !.resets = 0, !.procs = 0, !.cyc = @ + 1,
+                                 !.stale = IF StaleAcks /\ Failed THEN UnderWay ELSE 0]
     /\ act' = A("RcRestart", 0, "")
+
+(* (StaleAcks only) receiveMsg_NodesStarted for a confirmation of the failed attempt: its sender is unknown, so it takes a   *)
+(* place in `children`, and it is counted                                                                                  *)
+MRecvStaleAck ==
+    /\ mech.alive /\ env.stale > 0
+    /\ env' = [env EXCEPT !.stale = @ - 1]
+    /\ LET ch == SubSeq(<<-1>> \o mech.children, 1, Len(mech.children)) IN
+       IF mech.status = "starting" /\ mech.resp + 1 = Len(ch)
+       THEN /\ mech' = [mech EXCEPT !.children = ch, !.status = "cluster_started", !.resp = 0]
+            /\ rcbox' = Append(rcbox, "EngineStarted")
+       ELSE /\ mech' = [mech EXCEPT !.children = ch, !.resp = IF mech.status = "starting" THEN @ + 1 ELSE @]
+            /\ rcbox' = rcbox
+    /\ UNCHANGED <<scn, plan, rc2m, m2d, d2m, sys2d, d2n, n2m, m2n, n2d, mtimers, disp, na, nd, ho>>
+    /\ act' = A("MRecvStaleAck", 0, "")
 
 Listening == DAlive /\ disp.listening
 
@@ -519,6 +555,7 @@ Next == \/ MRecvStartEngine \/ MRecvReset \/ MWakeup \/ MRecvFailureD \/ MRecvSt
         \/ \E h \in Hosts(scn) : NRecvFailure(h)
         \/ \E h \in Hosts(scn) : \E src \in {"M", "D"} : NRecvExit(h, src)
         \/ RcStop \/ RcTeardown \/ RcRestart \/ \E k \in {0, 1} : RcReset(k)
+        \/ MRecvStaleAck
         \/ \E ip \in RIps : RemoteJoins(ip)
         \/ \E ip \in RIps : RemoteLeaves(ip)
         \/ \E n \in NodeIds(scn) : \E c \in {"early", "late", "stubborn"} : NodeProcess(n, c)
@@ -557,7 +594,7 @@ ChansEmpty == /\ rc2m = <<>> /\ m2d = <<>> /\ d2m = <<>> /\ sys2d = <<>> /\ mtim
 Awaited == {ip \in RemoteTargets(scn) : ip \notin env.up /\ ip \notin env.left}
 RcIdle == /\ ~(Started /\ ~Failed /\ ~env.stopSent /\ ~env.torn)
           /\ ~(~env.torn /\ (Failed \/ (Stopped /\ plan = <<>>)))
-          /\ ~(plan # <<>> /\ Stopped /\ ~Failed /\ ~env.torn /\ mech.alive /\ Drained)
+          /\ ~MayRestart
 Quiescent == ChansEmpty /\ RcIdle /\ (Listening => Awaited = {})
 
 (* start-up never hangs: race control gets EngineStarted or BenchmarkFailure; after a fault it is BenchmarkFailure *)
